@@ -313,6 +313,8 @@ def check_default_incoming(rep):
 
 def run(ctx):
     rep = ctx.new_report()
+    from vlib.ref import noise as _noise
+    E.set_noise(_noise.encode_noise() + _noise.strutils_noise())
     E.run(rep, 'text', [TEXTS, ENCODINGS, ERRORS], _text_case)
     srcs = [('raw', b) for b in RAW_BYTES] + [('enc-in', t) for t in TEXTS] + \
         [('enc-utf8', t) for t in TEXTS[2:6]]
